@@ -7,10 +7,16 @@ log = open(sys.argv[1]).read()
 suffix = sys.argv[2] if len(sys.argv) > 2 else ""
 props = {json.loads(l)["id"]: json.loads(l)["title"] for l in open("/verif/properties.jsonl")}
 for sec in re.split(r"(?m)^=== ", log)[1:]:
-    pid = sec.split()[0]
-    if pid == "done":
+    sid = sec.split()[0]
+    if sid == "done":
         continue
-    src = "/tmp/mut/%s/out" % pid
+    pid = sid
+    pf = "/tmp/mut/%s.prompt.txt" % sid
+    if os.path.exists(pf):
+        mm = re.search(r"^Property (C\d+):", open(pf).read(), re.M)
+        if mm:
+            pid = mm.group(1)
+    src = "/tmp/mut/%s/out" % sid
     if not os.path.exists(os.path.join(src, "patch.diff")):
         continue
     m = re.search(r"total passed=(\d+) failed=(\d+)", sec)
@@ -18,7 +24,7 @@ for sec in re.split(r"(?m)^=== ", log)[1:]:
     demo_pass_without = bool(re.search(r"demo WITHOUT change: test result: ok", sec))
     suite_ok = bool(m) and all("FAILED" not in l or "seeded_demo" in prev for prev, l in zip([""] + sec.split("\n"), sec.split("\n")) if "test result" in l)
     det = re.findall(r"detect: VIOLATION property=(C\d+) replay=(\S+)( no-failing-input-found)?", sec)
-    name = "%s%s" % (pid, suffix)
+    name = "%s%s" % (sid, suffix)
     dst = "/verif/seeded/%s" % name
     os.makedirs(dst, exist_ok=True)
     for f in ("patch.diff", "seeded_demo.rs", "notes.md"):
@@ -27,7 +33,7 @@ for sec in re.split(r"(?m)^=== ", log)[1:]:
     notes = open(os.path.join(src, "notes.md")).read() if os.path.exists(os.path.join(src, "notes.md")) else ""
     meta = {
         "breaks_property": pid, "property_title": props.get(pid),
-        "source": "fresh sub-agent given only the property text and a scratch worktree (/tmp/mut/%s)" % pid,
+        "source": "fresh sub-agent given only the property text and a scratch worktree (/tmp/mut/%s)" % sid,
         "needs_to_manifest": "see notes.md (agent's description); demonstration: seeded_demo.rs",
         "confirmed_by_me_in_scratch_worktree": {
             "worktree_diff_equals_patch": "worktree diff == patch.diff" in sec,
